@@ -1168,3 +1168,30 @@ def order_independent_reduction_rule(ctx, rid):
                            'it with the value so far: the result after the loop depends on which item is listed last (two equal moments get different noise)', m.rel, (plain[0].lineno if plain else st.lineno))
     if n == 0:
         raise AnalysisError(f'{rid}: no reduction loop found in the noise-model packages')
+
+
+def integer_digit_rule(ctx, rid):
+    """Mixed-radix digit extraction on basis-state indices stays in the integers."""
+    repo = ctx.repo
+    ctx.rule(rid, 'exact digit extraction: in cirq.sim, cirq.value.digits, cirq.qis, cirq.linalg and cirq.study, a name that is reduced with `%` (taking a digit) is never the numerator of a true division `/` in the '
+             'same function - the quotient of a basis-state index must be taken with `//`; a float quotient silently loses the low digits of indices above 2**53', floor=2, style='TNT')
+    n = 0
+    for m in sorted(repo.modules.values(), key=lambda x: x.rel):
+        if not m.rel.startswith(('cirq-core/cirq/sim/', 'cirq-core/cirq/value/digits.py', 'cirq-core/cirq/qis/', 'cirq-core/cirq/study/', 'cirq-core/cirq/linalg/')) or m.rel.endswith('_test.py'):
+            continue
+        for fn in [f for f in ast.walk(m.tree) if isinstance(f, ast.FunctionDef)]:
+            mod = {b.left.id for b in ast.walk(fn) if isinstance(b, ast.BinOp) and isinstance(b.op, ast.Mod) and isinstance(b.left, ast.Name)}
+            mod |= {b.target.id for b in ast.walk(fn) if isinstance(b, ast.AugAssign) and isinstance(b.op, ast.Mod) and isinstance(b.target, ast.Name)}
+            if not mod:
+                continue
+            quot = [b for b in ast.walk(fn) if (isinstance(b, ast.BinOp) and isinstance(b.op, (ast.Div, ast.FloorDiv)) and isinstance(b.left, ast.Name) and b.left.id in mod)
+                    or (isinstance(b, ast.AugAssign) and isinstance(b.op, (ast.Div, ast.FloorDiv)) and isinstance(b.target, ast.Name) and b.target.id in mod)]
+            if not quot:
+                continue
+            n += 1
+            bad = [b for b in quot if isinstance(b.op, ast.Div)]
+            ctx.ob(rid, f'{m.name}.{fn.name}:digits', not bad, '' if not bad else
+                   f'`{ast.unparse(bad[0])}` divides the index whose digits are taken with `%` by true division: above 2**53 the float quotient is rounded and the remaining digits are wrong '
+                   '(a 60-qubit all-ones initial state is prepared with a single 1)', m.rel, (bad[0].lineno if bad else fn.lineno))
+    if n == 0:
+        raise AnalysisError(f'{rid}: no digit-extraction loop found')
